@@ -212,12 +212,15 @@ func (e *Engine) verifyFunc(pkgPath, key string) (rep FuncReport) {
 		}
 		x.rets = append(x.rets, &retState{s: end, vals: vals, pos: f.body.Rbrace, ord: 0})
 	}
-	for _, r := range x.rets {
+	for i, r := range x.rets {
 		st := x.runDefers(r)
 		if st == nil {
 			continue
 		}
 		x.checkPost(st, r, ct)
+		// vacuity guard: at least one return path must be reachable under the contracts assumed on the way
+		e.obls = append(e.obls, &Obligation{Name: f.name + "#cover:ret" + itoa(i+1), Kind: "cover-ret", Fn: f.name, Pos: posStr(e.fset, r.pos),
+			Desc: "return path is reachable", PC: st.pc, Goal: "false", Cover: true, Quick: true, Inputs: inputs})
 	}
 	rep.Obligations = len(e.obls) - before
 	return
